@@ -113,7 +113,7 @@ class Ctx(_Reporting):
         z = self.zcache.get(key)
         if z is None:
             coefs, k, op = key
-            e = z3.Sum([c * self.zvars[i] for i, c in coefs]) + k if coefs else z3.IntVal(k)
+            e = zsum_([c * self.zvars[i] for i, c in coefs]) + k if coefs else z3.IntVal(k)
             z = (e <= 0) if op == 'le' else (e == 0)
             self.zcache[key] = z
         return z
@@ -331,9 +331,10 @@ class Ctx(_Reporting):
         extra_not: a z3 boolean describing inputs to be excluded (known findings)."""
         self.nobl += 1
         neg = z3.Not(zexpr)
-        if self.dump is not None and len(self.dump) < 40:
-            self.dump.append((self.solver.sexpr(), neg.sexpr()))
         r = self._check(neg)
+        if self.dump is not None and len(self.dump) < 8 and r != z3.unknown:
+            s2 = z3.Solver(); s2.add(self.solver.assertions()); s2.add(neg)
+            self.dump.append((s2.to_smt2(), str(r)))
         if r == z3.unsat:
             self.ndischarged += 1
             return None
@@ -428,6 +429,13 @@ class ConcreteCtx(_Reporting):
     def start_path(self):
         self.nfresh = 0
         self.findings = []; self.outcome = None; self.nchoice = 0
+
+
+def zsum_(terms):
+    """sum of z3 terms; a one-element sum is the element itself (cvc5 rejects (+ x))"""
+    terms = list(terms)
+    if not terms: return z3.IntVal(0)
+    return terms[0] if len(terms) == 1 else z3.Sum(terms)
 
 
 def ctx():
@@ -549,7 +557,7 @@ class SymNum:
         idx = c.fresh('q')
         me = self
         def build():
-            num = z3.Sum([v * c.zvars[i] for i, v in me.c.items()]) + me.k
+            num = zsum_([v * c.zvars[i] for i, v in me.c.items()]) + me.k
             q = c.zvars[idx]
             if ceil:
                 return z3.And(me.d * (q - 1) < num, num <= me.d * q)
@@ -637,7 +645,7 @@ def zq(x, c=None):
     c = c or ctx()
     if isinstance(x, SymNum):
         terms = [v * c.zvars[i] for i, v in x.c.items()]
-        return (z3.Sum(terms) + x.k if terms else z3.IntVal(x.k)), x.d
+        return (zsum_(terms) + x.k if terms else z3.IntVal(x.k)), x.d
     if isinstance(x, bool): return z3.IntVal(int(x)), 1
     if isinstance(x, int): return z3.IntVal(x), 1
     if isinstance(x, Fraction): return z3.IntVal(x.numerator), x.denominator
